@@ -495,7 +495,29 @@ func c19ClassCase(s Src, tag string) *Case {
 
 // ---------------------------------------------------------------- random cases
 
+// c19GrammarCase: a syntactically valid program straight from the grammar, using
+// ইনপুট in arbitrary ways, under several deliveries of the same stdin bytes. No
+// prediction: only what C19 states for every valid program.
+func c19GrammarCase(s Src) *Case {
+	prog := randomEffectfulProgram(s)
+	var stdin strings.Builder
+	n := s.Int("nstdin", 0, 12)
+	for i := 0; i < n; i++ {
+		stdin.WriteString(Pick(s, "padl", c19Pads) + Pick(s, "text", []string{"hello", "0", "12", "a b", "কলম", "", "x"}) + Pick(s, "padr", c19Pads) + "\n")
+	}
+	cs := &Case{Prop: "C19", Kind: "grammar", Sig: "grammar", Program: prog}
+	base := scriptCfg(prog, stdin.String())
+	base.TTY = drawTTY(s)
+	cs.Runs = []Run{{Role: "line", Cfg: withDelivery(base, "line")}, {Role: "all", Cfg: withDelivery(base, "all")}, {Role: "byte", Cfg: withDelivery(base, "byte")}}
+	c, d := drawDelivery(s, base)
+	cs.Runs = append(cs.Runs, Run{Role: d, Cfg: c})
+	return cs
+}
+
 func c19Random(s Src, tier string) *Case {
+	if Chance(s, "grammar", 1, 5) {
+		return c19GrammarCase(s)
+	}
 	switch s.Int("family", 0, 9) {
 	case 0, 1, 2:
 		return c19ClassCase(s, "rnd")
@@ -614,6 +636,10 @@ func c19Eval(cs *Case, ctx *EvalCtx) []Violation {
 		if cs.RelaxedFault != "" {
 			c19Relaxed(cs, i, o, ax, add)
 			continue
+		}
+		if cs.Kind == "grammar" && st != 0 && st != 70 {
+			// (what ইনপুট does once stdin is exhausted is unspecified, but it is either fine or a runtime error)
+			add(i, "exit-status", fmt.Sprintf("[%s] a syntactically valid program ended with status %d (stderr=%q)", role, st, clip(o.Stderr)))
 		}
 		if cs.ExpectExit != nil && st != *cs.ExpectExit {
 			add(i, "exit-status", fmt.Sprintf("[%s] exit status %d, expected %d (stderr=%q)", role, st, *cs.ExpectExit, o.Stderr))
